@@ -9,7 +9,7 @@ EXPLANATION = ('For every finite tag the Substrait producer writes and the consu
                'Substrait specification names for that join), sort direction (asc x nulls_first, both producers of SortField vs '
                'from_substrait_sorts), time precision (TimeUnit <-> 0/3/6/9), window bounds type (Rows/Range; Groups must be refused, not '
                'mapped), type nullability (nullable bool <-> Nullability, Unspecified read as nullable). A wrong entry changes results '
-               'silently after a round trip (a LEFT join coming back as RIGHT, NULLS FIRST as NULLS LAST). Everything else about the round '
+               'silently after a round trip (a LEFT join coming back as RIGHT, NULLS FIRST as NULLS LAST). Field-level agreement: for the 90 substrait messages the producer builds, every field it fills with a computed value is read somewhere in the consumer (field projection attributed by owner type, or the generated accessor); five exceptions are frozen with reasons. Everything else about the round '
                'trip — expressions, literals, schemas, function resolution — is value-level and not decided.')
 ASSUMPTIONS = ['a prost enum travels as the i32 discriminant of the same variant; <E as TryFrom<i32>>::try_from is modelled from the '
                'discriminants of E exported by the driver',
@@ -306,6 +306,82 @@ def nullability(ctx, enc, dec, rule='nullability-roundtrip'):
         ctx.ok(rule, 'Unspecified read as nullable')
 
 
+
+SUBP = 'substrait::proto::'
+# (message, field) the producer fills but the consumer has no use for — each read in the source
+SUBSTRAIT_UNREAD_OK = {
+    ('AggregateFunction', 'phase'): 'the producer always writes AggregationPhase::Unspecified; DataFusion plans carry the phase in the operator, not per function',
+    ('Plan', 'version'): 'producer version stamp; the consumer accepts any version',
+    ('ExtendedExpression', 'version'): 'producer version stamp',
+    ('expression::ScalarFunction', 'args'): 'deprecated field kept empty by the producer; `arguments` carries the operands',
+    ('expression::ScalarFunction', 'output_type'): 'the consumer re-derives the return type from the resolved function',
+}
+
+
+def consumer_reads_producer_fields(ctx, rule='consumer-reads-what-producer-writes', genp=SUBP,
+                                   prod_prefix='datafusion_substrait::logical_plan::producer', cons_prefixes=('datafusion_substrait::logical_plan::consumer', 'datafusion_substrait::extensions'),
+                                   unread_ok=SUBSTRAIT_UNREAD_OK, floor=80):
+    """Field-level agreement of the Substrait producer and consumer: every field of a substrait message that some producer function
+    fills with a computed value is read somewhere in the consumer (a projection of that field, attributed by the owner type, or a
+    call of the generated accessor of the same name).  A field the consumer ignores is silently dropped by the round trip."""
+    import protocov
+    f = ctx.facts
+
+    def under(d, pref):
+        s = d[1:] if d.startswith('<') else d
+        return s.startswith(pref)
+    prod = [x for x in f.fn_index if under(x, prod_prefix)]
+    cons = [x for x in f.fn_index if any(under(x, p) for p in cons_prefixes)]
+    written = {}
+    where = {}
+    for t in prod:
+        for i in range(len(f.fn_index[t])):
+            rec = f.fn(t, i)
+            if 'bb' not in rec:
+                continue
+            dm, mr = protocov._defs(rec)
+            for b in rec['bb']:
+                for st in b['s']:
+                    if st[0] == '=' and st[2][0] == 'agg' and st[2][1][0] == 'adt' and st[2][1][1].startswith(genp):
+                        a = f.adts.get(st[2][1][1])
+                        if not a or a['kind'] != 'struct':
+                            continue
+                        flds = a['variants'][0]['fields']
+                        ops = st[2][2]
+                        for k in range(min(len(flds), len(ops))):
+                            if protocov._klass(dm, mr, ops[k]) == 'value':
+                                written.setdefault(st[2][1][1], set()).add(flds[k][0])
+                                where.setdefault((st[2][1][1], flds[k][0]), rec)
+    read = {}
+    for t in cons:
+        for c in f.callees.get(t, ()):
+            # generated accessor: <genp>..::Msg::field
+            if c.startswith(genp):
+                msg, _, fld = c.rpartition('::')
+                read.setdefault(msg, set()).add(fld)
+        for i in range(len(f.fn_index[t])):
+            rec = f.fn(t, i)
+            if 'bb' not in rec:
+                continue
+            for m in written:
+                r = protocov._reads(rec, m)
+                if r:
+                    read.setdefault(m, set()).update(r)
+    n = 0
+    for m in sorted(written):
+        sm = m[len(genp):]
+        n += 1
+        miss = [x for x in sorted(written[m]) if x not in read.get(m, set()) and x.lstrip('r#') not in read.get(m, set()) and (sm, x) not in unread_ok]
+        if miss:
+            rec = where[(m, miss[0])]
+            ctx.fail(rule, sm, ctx.loc(rec), 'the producer fills %s of substrait %s with a computed value but nothing in the consumer reads it: the value is dropped by the '
+                     'round trip' % (miss, sm), key='%s|%s|%s' % (rule, sm, ','.join(miss)))
+        else:
+            ctx.ok(rule, sm, sample={'message': sm, 'fields_written': sorted(written[m])} if n <= 5 else None)
+    if floor:
+        ctx.floor(rule, 'substrait messages built by the producer', n, floor)
+    return n
+
 def run(ctx):
     join_types(ctx, SP + 'producer::rel::join::to_substrait_jointype', SP + 'consumer::rel::join_rel::from_substrait_jointype')
     sort_directions(ctx, [SP + 'producer::utils::substrait_sort_field', SP + 'producer::expr::aggregate_function::to_substrait_sort_field'],
@@ -315,6 +391,7 @@ def run(ctx):
     nullability(ctx, SP + 'producer::types::to_substrait_type_from_field', SP + 'consumer::types::is_nullable')
     n = sum(1 for o in ctx.obls if o[2])
     ctx.floor('roundtrip', 'tag round-trip instances decided', n, 26)
+    consumer_reads_producer_fields(ctx)
     # selftest: the seeded decoder in the selftest crate maps RightMark to LeftMark
     import common, tagtab
     st = ctx.st
